@@ -453,7 +453,7 @@ func registerDecimal(p *Program) {
 					lo := x.expLo()*2 - int64(x.digits()) - 2 - P
 					hi := x.expHi()*2 + int64(x.digits()) + 2
 					if x.Branch(B.App("quo_exact", smt.SBool, a.Mag, b.Mag)) {
-						e := B.App("qexp_f", smt.SInt, a.Mag, b.Mag, a.Exp, b.Exp)
+						e := B.App("qexp_abs_f", smt.SInt, a.Mag, b.Mag, a.Exp, b.Exp)
 						x.setBounds(e, lo, hi, "quotient exponent")
 						x.AssumeLocal(B.Le(e, B.Sub(a.Exp, b.Exp)), "quotient exponent at most the ideal exponent")
 						x.storeDec(dp, B.Int(0), neg, e, q)
@@ -467,7 +467,7 @@ func registerDecimal(p *Program) {
 					x.storeDec(dp, B.Int(0), neg, e2, mag2)
 					return x.condResult(ctx, B.True, B.True)
 				}
-				m := B.App("lead_f", smt.SInt, q)
+				m := B.App("qlead_f", smt.SInt, q)
 				lo := x.expLo()*2 - int64(x.digits()) - 2
 				hi := x.expHi()*2 + int64(x.digits()) + 2
 				x.setBounds(m, lo, hi, "quotient leading digit position")
@@ -570,13 +570,13 @@ func registerDecimal(p *Program) {
 				x.storeDec(c.Args[0], B.Int(0), a.Neg, B.Int(0), a.Mag)
 				return TupleV{c.Args[0], IntV{B.Neg(a.Exp)}}
 			}
-			e2 := B.App("redexp_f", smt.SInt, a.Mag, a.Exp)
+			e2 := B.App("redexp_pos_f", smt.SInt, a.Mag, a.Exp)
 			x.setBounds(e2, 1, hi, "reduced exponent")
 			x.AssumeLocal(B.And(B.Ge(e2, a.Exp), B.IsInt(B.Mul(a.Mag, B.RatC(big.NewRat(1, 10))))), "reduce: positive exponent")
 			x.storeDec(c.Args[0], B.Int(0), a.Neg, e2, a.Mag)
 			return TupleV{c.Args[0], IntV{B.Sub(e2, a.Exp)}}
 		}
-		e2 := B.App("redexp_f", smt.SInt, a.Mag, a.Exp)
+		e2 := B.App("redexp_neg_f", smt.SInt, a.Mag, a.Exp)
 		x.setBounds(e2, lo, -1, "reduced exponent")
 		x.AssumeLocal(B.Ge(e2, a.Exp), "reduce: negative exponent")
 		x.storeDec(c.Args[0], B.Int(0), a.Neg, e2, a.Mag)
